@@ -473,8 +473,9 @@ Proof. vm_compute. repeat split. Qed.
    property C13 (decompress (compress x) = Some x, compress x <> [] — needed by C13's writer theorem also for NoCompression, where
    the codec is never called), BlockRestartInterval >= 1, per written table the computable size condition write_sizes_ok
    (C13's table_sizes_ok and the file below 2^32 bytes), fresh file numbers, sequence numbers below keyMaxSeq, and for a
-   configured filter policy the no-false-negative condition of property C16 on the written file ([filter_safe]; with no
-   policy — goleveldb's default — it holds outright). *)
+   configured filter policy the no-false-negative condition of property C16 on each written file ([table_filter_ok]: a
+   boolean on the file, evaluated by the correspondence run on every table of every dumped state; with no policy —
+   goleveldb's default — it holds outright; it is NOT proved for the model's bloom filter writer). *)
 From GL Require Import Base.Cursor Codec.TableSizes Lsm.Pick Lsm.WfLsm Lsm.C06Steps Lsm.Builder Lsm.BuilderCuts Lsm.WritePath
   Lsm.WritePathTable Lsm.WritePathSteps Lsm.WritePathTheorems Lsm.WritePathHistory.
 
@@ -531,7 +532,7 @@ Theorem C01_flush_step_bytes :
   (forall f, In f (files_of st) -> tf_num f <> num) ->
   (forall x, In x (all_entries (A st)) -> (e_seq x <= keyMaxSeq p)%N) ->
   (mem_pairs mp d <> [] -> write_sizes_ok c p tp crc compress o (mem_pairs mp d) = true) ->
-  filter_safe c p tp crc compress decompress fname ufc verify o ->
+  table_filter_ok c p tp crc compress decompress fname ufc verify o (mem_pairs mp d) ->
   exists st', b_flush c p mp tp crc compress decompress fname ufc verify o num st = Some st' /\
     bfull c p mp tp crc decompress fname ufc verify o st' /\
     st_mem (A st') = st_mem (A st) /\ st_frozen (A st') = [] /\
@@ -585,7 +586,6 @@ Theorem C01_compaction_step_bytes :
   let A := abs c mp tp crc decompress fname ufc verify (wo_ri o) in
   seed_tables (st_levels (A st)) lvl seed <> [] -> (minSeq < keyMaxSeq p)%N ->
   NoDup nums -> (forall n f, In n nums -> In f (files_of st) -> tf_num f <> n) ->
-  filter_safe c p tp crc compress decompress fname ufc verify o ->
   exists cm, new_compaction c (file_size (files_of st)) (st_levels (A st)) lvl (wo_expandLimit o lvl)
                             (seed_tables (st_levels (A st)) lvl seed) = POk cm /\
     forall s',
@@ -593,7 +593,8 @@ Theorem C01_compaction_step_bytes :
       transact c p (file_size (files_of st)) (c_gp cm) (wo_gpOverlaps o lvl) deeper minSeq (wo_strict o) (wo_tableSize o (S lvl))
                (bytes_len c p tp crc compress o) os (map IGood (merge_inputs c (c_t0 cm ++ c_t1 cm))) (bst0 deeper) = (s', TDone) ->
       length nums = length (fin s') ->
-      Forall (fun ch => write_sizes_ok c p tp crc compress o (chunk_kvs ch) = true) (fin s') ->
+      Forall (fun ch => write_sizes_ok c p tp crc compress o (chunk_kvs ch) = true /\
+                        table_filter_ok c p tp crc compress decompress fname ufc verify o (chunk_kvs ch)) (fin s') ->
       exists st', b_compact c p tp crc compress decompress fname ufc verify o lvl seed os nums minSeq st = Some st' /\
         bfull c p mp tp crc decompress fname ufc verify o st' /\
         st_mem (A st') = st_mem (A st) /\ st_frozen (A st') = st_frozen (A st) /\
@@ -616,7 +617,8 @@ Print Assumptions C01_bfull_is_wf_bstate.
    table compactions with any picker choice / seed / failure history, trivial moves, snapshot acquisitions and releases —
    that the model executes (brun = Some: each step is enabled, e.g. a flush has a frozen memdb to flush) and whose side
    conditions hold (bops_ok: records well-formed, db.seq stays below keyMaxSeq, heights as randHeight draws them, fresh file
-   numbers, the size condition of every table written), the byte state is well-formed and DB.Get computed on the BYTES at
+   numbers, the size condition and — when a filter policy is configured — the filter condition of every table written), the
+   byte state is well-formed and DB.Get computed on the BYTES at
    db.seq returns, for every key, what the plain map driven by the written batches returns; and a read at the sequence
    number of a snapshot that is still live returns what the plain map returned at the instant the snapshot was taken.
    Not covered: transaction commits (bop_ok (BTxn ..) = False). *)
@@ -624,7 +626,7 @@ Theorem C01_history_bytes :
   forall c, comparer_ok c -> forall p, kparams_ok p -> (keyTypeSeek p <= keyTypeVal p)%N ->
   forall mp, MemDB.mparams_ok mp -> forall tp, tparams_ok tp -> forall crc, (forall b, (crc b < 2 ^ 32)%N) ->
   forall compress decompress, (forall x, decompress (compress x) = Some x) -> (forall x, compress x <> []) ->
-  forall fname ufc verify o, (1 <= wo_ri o)%N -> filter_safe c p tp crc compress decompress fname ufc verify o ->
+  forall fname ufc verify o, (1 <= wo_ri o)%N ->
   forall ops w0 w, w_init mp = Some w0 ->
   brun c p mp tp crc compress decompress fname ufc verify o w0 ops = Some w ->
   bops_ok c p mp tp crc compress decompress fname ufc verify o w0 ops ->
@@ -670,11 +672,10 @@ Ltac wx_in H := repeat (destruct H as [<-|H]; [vm_compute; try discriminate; try
 Ltac wx_recs := repeat (apply Forall_cons; [split; [vm_compute; auto | repeat (apply Forall_cons; [vm_compute; reflexivity|]); apply Forall_nil]|]); apply Forall_nil.
 Ltac wx_heights := repeat (apply Forall_cons; [split; vm_compute; discriminate|]); apply Forall_nil.
 Ltac wx_write := split; [wx_recs|split; [vm_compute; reflexivity|split; [wx_heights|vm_compute; reflexivity]]].
-Ltac wx_flush := split; [intros f Hf; vm_compute in Hf; wx_in Hf|intros d Hd _; vm_compute in Hd; injection Hd as <-; vm_compute; reflexivity].
+Ltac wx_flush := split; [intros f Hf; vm_compute in Hf; wx_in Hf|split; [intros d Hd _; vm_compute in Hd; injection Hd as <-; vm_compute; reflexivity|intros d Hd; left; reflexivity]].
 
 Example C01_write_path_nonvacuous :
   (forall x, wx_decompress (wx_compress x) = Some x) /\ (forall x, wx_compress x <> []) /\ (1 <= wo_ri wx_o)%N /\
-  filter_safe bytewise kp tblp tbl_crc wx_compress wx_decompress None (fun _ _ _ => true) true wx_o /\
   exists w0 w, w_init mp = Some w0 /\ wx_run w0 wx_ops = Some w /\
     bops_ok bytewise kp mp tblp tbl_crc wx_compress wx_decompress None (fun _ _ _ => true) true wx_o w0 wx_ops /\
     ws_seq w = 7 /\ ws_snaps w = [5] /\
@@ -684,7 +685,7 @@ Example C01_write_path_nonvacuous :
     map (fun k => wx_get w k 5) [97; 98; 99; 100; 101; 102] =
       [Some None; Some None; Some (Some [2]); Some (Some [3]); Some (Some [4]); Some None].
 Proof.
-  split; [reflexivity|]. split; [discriminate|]. split; [vm_compute; discriminate|]. split; [left; reflexivity|].
+  split; [reflexivity|]. split; [discriminate|]. split; [vm_compute; discriminate|].
   destruct (w_init mp) as [w0|] eqn:E0; [|vm_compute in E0; discriminate].
   vm_compute in E0. injection E0 as <-.
   eexists. eexists. split; [reflexivity|]. split; [vm_compute; reflexivity|].
@@ -704,7 +705,7 @@ Proof.
       - intros n f Hn Hf. vm_compute in Hf. destruct Hn as [<-|[<-|[]]]; wx_in Hf.
       - intros cm s' H1 H2. vm_compute in H1. injection H1 as <-. vm_compute in H2. injection H2 as <-.
         match goal with |- Forall _ ?l => let r := eval vm_compute in l in replace l with r by (vm_compute; reflexivity) end.
-        repeat (apply Forall_cons; [vm_compute; reflexivity|]). apply Forall_nil. }
+        repeat (apply Forall_cons; [split; [vm_compute; reflexivity|left; reflexivity]|]). apply Forall_nil. }
     split; [wx_write|wx_next]. exact I.
   - vm_compute. repeat split; reflexivity.
 Qed.
